@@ -465,7 +465,7 @@ where
             let dist_ptr = self.dist.as_mut_ptr();
 
             for (x, w) in self.digraph.out_neighbors_weighted(v) {
-                let distance = distance + w;
+                let distance = distance.saturating_add(*w);
                 let dist_x = unsafe { dist_ptr.add(x) };
 
                 if distance < unsafe { *dist_x } {
